@@ -63,6 +63,7 @@ type world struct {
 	tldSrv, zoneSrv *authkit.Server
 	qname           string
 	qtype           uint16
+	rogue           *authkit.Key // the on-path attacker's own key, owner name = the target zone
 }
 
 func build(c caseT) (*world, error) {
@@ -124,6 +125,7 @@ func build(c caseT) (*world, error) {
 	case "dname":
 		w.qname = "x.d.zone.test."
 	}
+	w.rogue = authkit.NewKey(zoneName, 0)
 	if c.Tamper["dnskey"] == "clonetag" && w.zone.Key0() != nil {
 		if clone := authkit.CloneTagKey(zoneName, w.zone.Key0(), 400000); clone != nil {
 			w.zone.AddKey(clone)
@@ -371,6 +373,32 @@ func (w *world) hookFor(pos, kind string, count *int) (*authkit.Server, func(*au
 				return
 			}
 			*count++
+			if kind == "roguekey" {
+				// the attacker's key joins the DNSKEY RRset and the set is re-signed with that key alone;
+				// the DS-matched key is still published, only its signature over the set is gone
+				var set, rest []dns.RR
+				for _, rr := range ex.Resp.Answer {
+					switch v := rr.(type) {
+					case *dns.DNSKEY:
+						set = append(set, rr)
+					case *dns.RRSIG:
+						if v.TypeCovered != dns.TypeDNSKEY {
+							rest = append(rest, rr)
+						}
+					default:
+						rest = append(rest, rr)
+					}
+				}
+				if len(set) == 0 {
+					return
+				}
+				rk := dns.Copy(w.rogue.RR)
+				rk.Header().Ttl = set[0].Header().Ttl
+				set = append(set, rk)
+				sig := authkit.SignRRset(set, zoneName, w.rogue, time.Now().Add(-time.Hour), time.Now().Add(24*time.Hour))
+				ex.Resp.Answer = append(append(set, sig), rest...)
+				return
+			}
 			ex.Resp.Answer = w.tamperSection(ex.Resp.Answer, kind, w.zone, func(rr dns.RR) bool { return rr.Header().Rrtype == dns.TypeDNSKEY })
 		}
 	case "answer":
@@ -395,6 +423,30 @@ func (w *world) hookFor(pos, kind string, count *int) (*authkit.Server, func(*au
 				if had {
 					ex.Resp.Ns = append(dropProofs(ex.Resp.Ns), w.foreignProof()...)
 				}
+			case "roguesig":
+				// every RRset of the reply is altered and re-signed, signer name = the zone, with the attacker's key
+				resign := func(sec []dns.RR) []dns.RR {
+					sets := rrsets(sec)
+					var names []string
+					for k := range sets {
+						names = append(names, k)
+					}
+					sort.Strings(names)
+					var out []dns.RR
+					for _, k := range names {
+						set := sets[k]
+						if set[0].Header().Rrtype == dns.TypeOPT {
+							out = append(out, set...)
+							continue
+						}
+						alterData(set[0])
+						out = append(out, set...)
+						out = append(out, authkit.SignRRset(set, zoneName, w.rogue, time.Now().Add(-time.Hour), time.Now().Add(24*time.Hour)))
+					}
+					return out
+				}
+				ex.Resp.Answer = resign(ex.Resp.Answer)
+				ex.Resp.Ns = resign(ex.Resp.Ns)
 			case "inject":
 				victim := w.evil.RRset("victim.evil.test.", dns.TypeA)
 				ex.Resp.Answer = append(ex.Resp.Answer, victim...)
